@@ -285,16 +285,16 @@ Example compile_correct_example :
 Proof. split; [reflexivity|]. eexists. split; [reflexivity|]. vm_compute. reflexivity. Qed.
 
 (* ------------------------------------------------------------------ *)
-(* The faithful VM model REFUTES compile_correct on the full language: closing
-   a coroutine that is suspended inside a pcall skips the handlers pending
-   inside that pcall (Thread.CallContext truncates the close stack on the
-   threadClose panic).  The witness is replayed on golua by the check
-   (known finding C10-coroutine-close-skips-pcall-frames). *)
+(* Former refutation witness (coroutine.close of a coroutine suspended inside
+   pcall).  Before the repair of Thread.CallContext (which truncated the close
+   stack on the threadClose panic) the faithful VM model skipped the handler
+   pending inside the pcall; the repaired code leaves the entries for
+   Thread.end, and the VM model now agrees with the reference semantics. *)
 Definition coclose_witness : block :=
   BCons (SCoro (BCons (SPcall (BCons (SLocal (VObj 1 None)) (BCons SYield BNil))) BNil) (Some 0)) BNil.
 
-Theorem compile_correct_coroutine_close_refuted :
-  exists b c, compile b = Some c /\
-    run_ref 50 b [] = Done ([EvOpen 1; EvClose 1 None; EvCo None; EvPcall None], ONormal) /\
-    run_vm 50 c [] = Done ([EvOpen 1; EvCo None; EvPcall None], VReturn).
-Proof. exists coclose_witness. eexists. split; [reflexivity|]. split; vm_compute; reflexivity. Qed.
+Theorem coroutine_close_through_pcall_closes :
+  exists c, compile coclose_witness = Some c /\
+    run_ref 50 coclose_witness [] = Done ([EvOpen 1; EvClose 1 None; EvCo None; EvPcall None], ONormal) /\
+    run_vm 50 c [] = Done ([EvOpen 1; EvClose 1 None; EvCo None; EvPcall None], VReturn).
+Proof. eexists. split; [reflexivity|]. split; vm_compute; reflexivity. Qed.
